@@ -296,7 +296,9 @@ def render_v2000(m: Mol, rng: random.Random, opts=None):
         if o["blank_coords"]:
             # a blank fixed-width field reads as 0
             cf = [" " * 10 if float(c) == 0 and rng.random() < 0.7 else c for c in cf]
-        line = f"{cf[0]}{cf[1]}{cf[2]} {sym_of[i]:<3s}{0:2d}{code:3d}"
+        # the mass-difference field `dd` (obsolete; the reader takes isotopes from M  ISO only): non-zero on request
+        dd = [-3, -1, 1, 2, 4][i % 5] if (opts or {}).get("mass_diff") else 0
+        line = f"{cf[0]}{cf[1]}{cf[2]} {sym_of[i]:<3s}{dd:2d}{code:3d}"
         tail = "".join(f"{v:3d}" for v in [0, 0, 0, 0, 0, 0, 0, 0, 0, 0])
         if o["short_lines"] and rng.random() < 0.5:
             tail = tail[: 3 * rng.randint(0, 9)]
